@@ -32,11 +32,24 @@
          index core (any units):      C09_fragments_cover, C09_separators_roundtrip, C09_fragments_roundtrip, C09_schema_roundtrip_core
          whole record, Angstrom molrec: C09_schema_roundtrip_angstrom (same, result = the molrec expressed in Bohr; hypothesis
                                       Bohr-per-Angstrom factor >= 1, which the window check of from_arrays / the conversion factor give)
-         gaps: name / comment / provenance pass-through (oracle); "with numpy or plain-list output": both are the same abstract value in
-               the model, np_out (ndarray vs list representation, JSON-ability) is oracle only
+         name / comment:             C09_name_comment_roundtrip (what comes back: the name - the formula for an unnamed molecule - and the
+                                      comment exactly as it was), C09_named_molrec_extras_roundtrip, C09_name_comment_second_translation,
+                                      C09_comment_exported_iff_present; pieces from the ASTs of to_schema / from_schema / from_arrays /
+                                      validate_and_fill_units (Gen/SchemaExtras.v), formula_generator a parameter, stream extras
+         gaps: provenance is not carried (from_schema stamps its own; its validation by from_arrays is oracle / damaged-schema only);
+               "with numpy or plain-list output": both are the same abstract value in the model, np_out (ndarray vs list
+               representation, JSON-ability) is oracle only
     C. "a Molecule rebuilt from its own dictionary is equal to the original with the same hash"
-         only oracle on the implementation (Molecule rebuilt from mol.dict(): ==, get_hash; re-validation keeps the hash); the molrec-level
-         content is B (Molecule.__init__ validates through from_schema -> to_schema) and hashing is C11
+         geometry (the field a rebuild could disturb: __init__ may re-round it, get_hash rounds it): C09_rebuilt_keeps_geometry (a
+         dictionary that says validated=True, as mol.dict() of a validated molecule does, is stored coordinate for coordinate, whatever
+         truncation - geometry_noise, scramble()/align() use 13 - the original was stored with), C09_rebuilt_same_hashed_geometry,
+         C09_revalidated_same_hashed_geometry (the same dictionary re-validated from scratch at the default truncation feeds the digest
+         the same coordinates: needs float_prep idempotent at GEOMETRY_NOISE, which is C11_prep_idempotent for C11's model of float_prep),
+         C09_unvalidated_keeps_geometry (validate=False); branch, flag and noise constants from the AST of Molecule.__init__ / get_hash
+         (Gen/MolGeomInit.v), correspondence stream geom-init.  The other fields: oracle on the implementation (Molecule rebuilt from
+         mol.dict() / dict(encoding="json") / its JSON: ==, get_hash; re-validation keeps the hash; molecules handed back by scramble(),
+         align(), orient_molecule(), finer geometry_noise, validated=True payloads with unrounded coordinates, validate=False); the
+         molrec-level content is B (Molecule.__init__ validates through from_schema -> to_schema) and the digest itself is C11
     D. "the exported geometry is always in Bohr"
          C09_exported_geometry_in_bohr (unit branch from the AST), C09_to_schema_exports_bohr (whole record: an export succeeds only
          for units = Bohr and dtype 1/2, geometry = stored * Bohr-per-unit), C09_to_schema_refuses_other_units (ValidationError),
@@ -44,7 +57,8 @@
 From Coq Require Import ZArith NArith QArith List String Bool.
 Require Import QV.Common.Outcome QV.Common.JsonS QV.Proofs.JsonS QV.Model.QCSchema QV.Proofs.QCSchema
                QV.Gen.Schemas QV.Gen.FieldTypes QV.Gen.ToSchemaGen QV.Model.SchemaMol QV.Proofs.SchemaMol
-               QV.Model.MolRec QV.Proofs.MolRec QV.Gen.SchemaKeys QV.Model.SchemaTrans QV.Proofs.SchemaTrans QV.Proofs.SchemaTransAng.
+               QV.Model.MolRec QV.Proofs.MolRec QV.Gen.SchemaKeys QV.Model.SchemaTrans QV.Proofs.SchemaTrans QV.Proofs.SchemaTransAng
+               QV.Gen.MolGeomInit QV.Model.GeomInit QV.Proofs.GeomInit QV.Gen.SchemaExtras QV.Model.SchemaExtras QV.Proofs.SchemaExtras.
 Import ListNotations.
 Open Scope string_scope.
 
@@ -393,6 +407,45 @@ Example C09_ex_roundtrip :
   seps_of_frags [[0; 1]; [2]; [3; 4]]%nat = [2; 3]%nat /\ contiguous [[0; 1]; [2]; [3; 4]]%nat.
 Proof. repeat split; vm_compute; auto. Qed.
 
+(** Clause B, the free-text entries: name and comment through to_schema (dtype 1 or 2) and from_schema.  [formula] =
+    formula_generator(elem), the name to_schema gives an unnamed molecule (a parameter). *)
+Theorem C09_name_comment_roundtrip : forall formula x,
+    from_schema_extras (to_schema_extras formula x) =
+    {| x_name := Some (match x_name x with Some n => n | None => formula end); x_comment := x_comment x |}.
+Proof. exact extras_roundtrip. Qed.
+Theorem C09_named_molrec_extras_roundtrip : forall formula n c,
+    from_schema_extras (to_schema_extras formula {| x_name := Some n; x_comment := c |}) = {| x_name := Some n; x_comment := c |}.
+Proof. exact extras_roundtrip_named. Qed.
+Theorem C09_name_comment_second_translation : forall formula formula' x,
+    to_schema_extras formula' (from_schema_extras (to_schema_extras formula x)) = to_schema_extras formula x.
+Proof. exact extras_second_translation. Qed.
+Theorem C09_comment_exported_iff_present : forall formula x, x_comment (to_schema_extras formula x) = None <-> x_comment x = None.
+Proof. exact comment_exported_iff. Qed.
+
+(** Clause C, geometry.  [prep] = float_prep, [orient_fn] = _orient_molecule_internal (parameters); the branch of Molecule.__init__
+    and the noise constants are generated from the AST on every run (Gen/MolGeomInit.v).
+    A dictionary that says validated=True (what mol.dict() of a validated molecule says) is stored coordinate for coordinate. *)
+Theorem C09_rebuilt_keeps_geometry : forall (G : Type) (prep : Z -> G -> G) (orient_fn : G -> G) noise_kw g,
+    stored_geometry G prep orient_fn false None true false noise_kw g = g.
+Proof. exact rebuilt_keeps_geometry. Qed.
+Theorem C09_rebuilt_same_hashed_geometry : forall (G : Type) (prep : Z -> G -> G) (orient_fn : G -> G) noise_kw g,
+    hashed_geometry G prep (stored_geometry G prep orient_fn false None true false noise_kw g) = hashed_geometry G prep g.
+Proof. exact rebuilt_same_hashed_geometry. Qed.
+(** The same dictionary without the flag is validated again, at the default truncation: get_hash is fed the same coordinates,
+    provided float_prep is idempotent at GEOMETRY_NOISE. *)
+Theorem C09_revalidated_same_hashed_geometry : forall (G : Type) (prep : Z -> G -> G) (orient_fn : G -> G),
+    (forall g, prep hash_geometry_noise (prep hash_geometry_noise g) = prep hash_geometry_noise g) ->
+    forall g, hashed_geometry G prep (stored_geometry G prep orient_fn false None false false None g) = hashed_geometry G prep g.
+Proof. exact revalidated_same_hashed_geometry. Qed.
+Theorem C09_unvalidated_keeps_geometry : forall (G : Type) (prep : Z -> G -> G) (orient_fn : G -> G) validated_kw noise_kw g,
+    stored_geometry G prep orient_fn false (Some false) validated_kw false noise_kw g = g.
+Proof. exact explicit_novalidate_keeps_geometry. Qed.
+Example C09_ex_prep_idempotent :
+  (forall g, trunc_prep hash_geometry_noise (trunc_prep hash_geometry_noise g) = trunc_prep hash_geometry_noise g) /\
+  trunc_prep hash_geometry_noise [12345678912345678912; -5] = [12345678000000000000; -1000000000000] /\
+  stored_geometry (list Z) trunc_prep (fun g => g) false None false false (Some 13) [12345678912345678912] = [12345678912340000000].
+Proof. split; [exact trunc_prep_idem | split; vm_compute; reflexivity]. Qed.
+
 Print Assumptions C09_validator_sound.
 Print Assumptions C09_validator_complete.
 Print Assumptions C09_inhabits_checker_sound.
@@ -433,3 +486,11 @@ Print Assumptions C09_schema_keys_complete.
 Print Assumptions C09_to_schema_exports_bohr.
 Print Assumptions C09_to_schema_refuses_other_units.
 Print Assumptions C09_from_schema_reads_bohr.
+Print Assumptions C09_name_comment_roundtrip.
+Print Assumptions C09_named_molrec_extras_roundtrip.
+Print Assumptions C09_name_comment_second_translation.
+Print Assumptions C09_comment_exported_iff_present.
+Print Assumptions C09_rebuilt_keeps_geometry.
+Print Assumptions C09_rebuilt_same_hashed_geometry.
+Print Assumptions C09_revalidated_same_hashed_geometry.
+Print Assumptions C09_unvalidated_keeps_geometry.
